@@ -15,6 +15,13 @@ Definition c (poll reopen tail has0 : bool) (c0 : string) (hist : list (N * stri
   (mkcin poll reopen tail (if has0 then Some (unhex c0) else None) (map lab hist),
    (unhex del, term, map lab log)).
 
+(* the same with the delivered stream given in pieces (Coq cannot parse literals of hundreds of kilobytes; long log
+   entries are likewise split by the harness into consecutive entries of the same kind) *)
+Definition cL (poll reopen tail has0 : bool) (c0 : string) (hist : list (N * string))
+              (del : list string) (term : N) (log : list (N * string)) : cin * obs :=
+  (mkcin poll reopen tail (if has0 then Some (unhex c0) else None) (map lab hist),
+   (List.concat (map unhex del), term, map lab log)).
+
 Definition model := Follow.model.
 Definition oeqb := obs_eqb.
 Definition check := C15_check.
